@@ -98,6 +98,15 @@ M = [
             throw std::runtime_error("MDP definition is incomplete");"""),
  ('M28 discount line ignored after the first one', F,
   """            discount_ = std::stod(tokenize(line, ":").at(1));""", """            if (discount_ == 1.0) discount_ = std::stod(tokenize(line, ":").at(1));"""),
+ ('N1 (round 2) a reused parser keeps the previous discount', F,
+  """        discount_ = 1.0;
+
+        for(std::string line;""", """        for(std::string line;"""),
+ ('N2 (round 2) a reused parser keeps the previous observation count', F,
+  """        S_ = 0, A_ = 0, O_ = 0;""", """        S_ = 0, A_ = 0;"""),
+ ('N3 (round 2) lines_ is not cleared between two uses of a parser', F,
+  """        lines_.clear();
+        S_ = 0""", """        S_ = 0"""),
 ]
 sel = sys.argv[1:]
 for name, f, a, b in M:
